@@ -35,5 +35,4 @@ cc!(t, rep_concat, U_GROUP);
 cc!(q, nested_concat, U_NONE);
 cc!(t, nested_concat, U_VARINT);
 cc!(t, nested_concat, U_GROUP);
-pproof!{ #[kani::unwind(12)] fn c18_q_map_dup_key() { crate::pb::pb_btree_map_dup_key::<false>() } }
-pproof!{ #[kani::unwind(12)] fn c18_q_map_dup_key_with_other() { crate::pb::pb_btree_map_dup_key::<true>() } }
+pproof!{ #[kani::unwind(12)] fn c18_x_map_dup_key() { crate::pb::pb_btree_map_dup_key::<false>() } }
